@@ -1134,13 +1134,22 @@ pub fn zrtt2(seed: u64, out: &mut Outcome) {
     let early_written: u64 = early_written_a;
     let ctx = format!("mode {mode:?}, remembered {p1:?}, new {p2:?}, client rw {w0} -> {w1:?}, client stream limits {lim_c:?} -> {lim_c_final:?}, retry sent {retry_sent}, accept delay {} ms, drop mask {drop_mask:#010b}, 0-RTT keys {had_0rtt}, accepted {accepted}", accept_delay / 1_000_000);
     let mut consequences_only = false;
-    let server_transport_error = lost_s.iter().any(|l| l.contains("TransportError"));
-    if mode == Mode::AcceptSmaller && (accepted || (server_transport_error && !connected) || lost_c.iter().any(|l| l.contains("incompatible transport parameters"))) {
+    // The recorded finding is this CONFIGURATION (TLS session state kept, parameters reduced) together with the evidence
+    // that the server did accept early data; what it excuses is only what its text lists: the server's FLOW_CONTROL_ERROR /
+    // STREAM_LIMIT_ERROR / PROTOCOL_VIOLATION on early data, or the client's PROTOCOL_VIOLATION("0-RTT accepted with
+    // incompatible transport parameters"), and the peer's view of that close.  Any other report in such an execution (another
+    // error code, a reset, a timeout), and every oracle of an execution that stays alive, is judged as usual.
+    let listed_consequence = |l: &String| {
+        (l.contains("TransportError") || l.contains("ConnectionClosed"))
+            && (l.contains("FLOW_CONTROL_ERROR") || l.contains("STREAM_LIMIT_ERROR") || l.contains("PROTOCOL_VIOLATION"))
+    };
+    let server_listed_error = lost_s.iter().any(|l| l.contains("TransportError") && listed_consequence(l));
+    if mode == Mode::AcceptSmaller && (accepted || (server_listed_error && !connected) || lost_c.iter().any(|l| l.contains("incompatible transport parameters"))) {
         // RFC 9000 7.4.1: "A server MUST NOT accept 0-RTT ... if [the remembered values are] reduced": what follows
         // (the server's FLOW_CONTROL_ERROR / STREAM_LIMIT_ERROR / PROTOCOL_VIOLATION on the early data it chose to
         // process, or the client's PROTOCOL_VIOLATION on the handshake) is a consequence of this
         sim.fail("zero-rtt-accepted-with-reduced-parameters", format!("the server accepted 0-RTT although it reduced {:?} below the values it sent with the ticket ({ctx}); outcome: client {lost_c:?} server {lost_s:?}", p2.reduced_from(&p1)));
-        consequences_only = true;
+        consequences_only = !(lost_c.is_empty() && lost_s.is_empty()) && lost_c.iter().chain(lost_s.iter()).all(listed_consequence);
     }
     if accepted && reject_configured {
         sim.fail("zero-rtt-accepted-by-a-server-that-lost-its-state", format!("client reports accepted_0rtt although the server cannot have accepted early data ({ctx})"));
